@@ -239,6 +239,13 @@ def _c06(R, tier, seed):
     impl = sides.impl(reqs)
     model = sides.model(reqs, cfg)
     mismatches = [dict(op='FR', args=r[1], model=m, impl=i) for r, m, i in zip(reqs, model, impl) if m != i]
+    if cfg != PS.SOUND:     # runtime cross-check of Py/Bridge.v on the corner-free inputs
+        idx = [j for j, (p, x) in enumerate(terms) if PS.corner_free_inputs([p])]
+        R.hist['bridge:corner-free'] = R.hist.get('bridge:corner-free', 0) + len(idx)
+        R.hist['bridge:not-corner-free'] = R.hist.get('bridge:not-corner-free', 0) + len(terms) - len(idx)
+        for j, a in zip(idx, sides.model([reqs[j] for j in idx], PS.SOUND)):
+            if a != model[j]:
+                mismatches.append(dict(op='BRIDGE:FR', args=reqs[j][1], model=model[j], impl='flags_sound model: ' + a))
     nsig = 3 if tier == 'quick' else 6
 
     def judge(j, ans, dr):
